@@ -91,9 +91,16 @@ class ModuleInfo:
     assigns: Dict[str, ast.expr] = field(default_factory=dict)  # module level NAME = expr / NAME: T = expr
 
 
+_SHARED_NODE_KINDS = (ast.expr_context, ast.operator, ast.boolop, ast.unaryop, ast.cmpop)
+
+
 def _set_parents(tree: ast.AST):
     for parent in ast.walk(tree):
         for child in ast.iter_child_nodes(parent):
+            # Load() / Store() / Add() ... are singletons shared by every tree the parser ever built in this process: a parent
+            # link on them would tie all trees together (and make every deepcopy drag an old tree along)
+            if isinstance(child, _SHARED_NODE_KINDS):
+                continue
             child._parent = parent  # type: ignore[attr-defined]
     tree._parent = None  # type: ignore[attr-defined]
 
